@@ -307,6 +307,12 @@ func (m *RWMutex) RUnlock() {
 	m.mu.Unlock()
 }
 
+// Rec3 is a compiled function of three parameters and no result (a shape of its own in the
+// interpreter's call compiler): it logs what it receives.
+func Rec3(a int, b string, c int) {
+	Ev("rec3", a, b, c)
+}
+
 // Fault is a named fault point inside compiled code.
 func Fault(site string) {
 	c := Cur
@@ -337,6 +343,7 @@ func init() {
 			"Unlock":         reflect.ValueOf(Unlock),
 			"Fault":          reflect.ValueOf(Fault),
 			"NewMutex":       reflect.ValueOf(NewMutex),
+			"Rec3":           reflect.ValueOf(Rec3),
 			"NewRWMutex":     reflect.ValueOf(NewRWMutex),
 		},
 		Types: map[string]reflect.Type{
